@@ -25,7 +25,7 @@ RULE = (
 )
 FAULTS_NOTE = "rejected_edit = an illegal edit that must raise and change nothing; object_reuse = a copy of the circuit is edited and the original re-inspected"
 PROBES = ["pair_refused_as_incompatible", "insert2_done", "group_changed", "unwrap_changed", "rmid_changed",
-          "replace_done", "auto_register_added", "remove_two_qubit", "group_with_measurement_on_wire", "started_from_solver_circuit", "insert2_edges_listed_target_first"]
+          "replace_done", "auto_register_added", "remove_two_qubit", "group_with_measurement_on_wire", "started_from_solver_circuit", "insert2_edges_listed_target_first", "started_from_json_round_trip"]
 REAL = ["graphiq.circuit.circuit_dag.CircuitDAG (all edit methods, find_incompatible_edges, sequence, validate)",
         "graphiq.circuit.ops", "graphiq.circuit.register"]
 STUB = []
@@ -76,7 +76,10 @@ def gen_case(run_seed, tier):
         else:
             hist.append([k])
     case = {"ne": ne, "np": np_, "nc": nc, "history": hist}
-    if sz.random() < 0.2:
+    if sz.random() < 0.12:
+        # start from a circuit that went through the JSON export/import (operations rebuilt through their setters)
+        case["start_json"] = [h for h in hist[: sz.randint(3, 12)] if h[0] == "add"]
+    elif sz.random() < 0.2:
         # start from a solver-made circuit instead of an empty one
         from sim import graphs
 
@@ -89,6 +92,10 @@ def simplify(case):
     if case.get("start"):
         c = dict(case)
         c.pop("start")
+        yield c
+    if case.get("start_json"):
+        c = dict(case)
+        c.pop("start_json")
         yield c
     for key in ("ne", "np", "nc"):
         lo = 1 if key == "ne" else 0
@@ -361,6 +368,26 @@ def run_case(case):
             raise
         except Exception:
             circ = None  # the solver's own failures are C02's subject
+    if circ is None and case.get("start_json"):
+        try:
+            c0 = gq.CircuitDAG(n_emitter=case["ne"], n_photon=case["np"], n_classical=case["nc"])
+            m0 = Model(case["ne"], case["np"], case["nc"])
+            for st0 in case["start_json"]:
+                sp0 = resolve(m0, st0[1], st0[2], st0[3:])
+                if sp0 is None or (sp0[0] == "w" and len(sp0) > 4):
+                    continue
+                c0.add(gq.make_op(sp0))
+                n0_ = m0.new_node(sp0)
+                for key in gq.qregs(sp0):
+                    m0.wires[key].append(n0_)
+            circ = gq.CircuitDAG.from_json(c0.to_json())
+            m = Model(circ.n_emitters, circ.n_photons, circ.n_classical)
+            resync(m, circ)
+            ctx.probe("started_from_json_round_trip")
+        except core.HarnessError:
+            raise
+        except Exception:
+            circ = None  # export/import failures are C14's subject
     if circ is None:
         circ = gq.CircuitDAG(n_emitter=case["ne"], n_photon=case["np"], n_classical=case["nc"])
         m = Model(case["ne"], case["np"], case["nc"])
